@@ -171,7 +171,7 @@ func NewDocGen(r *Rng, maxNodes, maxDepth int) *DocGen {
 		Prefixes: []string{"", "p", "q", "r", "P", "\u212a", "k"}, // prefixes are compared exactly: p / P, k / the Kelvin sign are different prefixes
 		Texts: []string{"1", "2", "10", "9", " 12 ", "3.5", "-4", "abc", "", "x y", "NaN", "1e3", "0", "-0", "007",
 			" ", "\t\n", "héllo", "日本", "á", "1 2", ".5", "5.", "+1", "Infinity", "100", "0.1", "true", "b", "zz", "\u00a02", "3\u2003", "\u30004\u0085",
-			" -5", "\n\t-7.5\n", " -.5 ", "- 3", "-\t2"},
+			" -5", "\n\t-7.5\n", " -.5 ", "- 3", "-\t2", "false", "0"},
 		Langs: []string{"en", "en-US", "EN-gb", "zh", "ZH-tw", "zh-Hant", "de", "", "fr-CA", "x-klingon", "eng", "en-GB-x-priv"},
 	}
 }
